@@ -8,6 +8,8 @@ using namespace Avoid;
 enum { P_segment = 0, P_angle, P_crossing, P_clusterCrossing, P_fixedShared, P_portDir, P_buffer, P_nudgeDist, P_reverse };
 enum { O_nudgeAttached = 0, O_hyperMove, O_penaliseSharedEnds, O_nudgeTouching, O_unifying, O_hyperAddDel, O_nudgeCommonEnd };
 
+static Polygon toAvoid(const Poly &p) { Polygon pg((int)p.size()); for (size_t i = 0; i < p.size(); i++) pg.ps[i] = Point(p[i].x, p[i].y); return pg; }
+
 bool RouterSession::optNudgeAttached() { return options.count(O_nudgeAttached) ? options[O_nudgeAttached] : false; }
 
 // ---- pins: harness-side model of where a pin is (written from the documentation of ShapeConnectionPin)
@@ -61,6 +63,55 @@ bool RouterSession::extraOp(const Json &op, const std::string &o, std::string &e
         it->second.pt = Pt{op["pt"][0].num(), op["pt"][1].num()};
         ex = guardedLocal([&] { router->moveJunction(it->second.ref, Point(it->second.pt.x, it->second.pt.y)); });
         edited = true; probe("router.moveJunction");
+        return true;
+    }
+    // ---- less common API (memory-safety worlds): clusters, fixed routes, crossing aversion
+    if (o == "addCluster" || o == "moveCluster") {
+        int k = (int)op["id"].i();
+        Poly pl = polyFromJson(op["poly"]);
+        if (pl.size() < 3) return false;
+        if (o == "addCluster") {
+            if (clusters.count(k) && clusters[k].alive) return false;
+            Cl c; c.alive = true;
+            ex = guardedLocal([&] { Polygon pg = toAvoid(pl); c.ref = new ClusterRef(router, pg); });
+            clusters[k] = c; probe("router.addCluster");
+        } else {
+            auto it = clusters.find(k);
+            if (it == clusters.end() || !it->second.alive || !it->second.ref) return false;
+            ex = guardedLocal([&] { Polygon pg = toAvoid(pl); it->second.ref->setNewPoly(pg); });
+            probe("router.moveCluster");
+        }
+        edited = true;
+        return true;
+    }
+    if (o == "deleteCluster") {
+        int k = (int)op["id"].i();
+        auto it = clusters.find(k);
+        if (it == clusters.end() || !it->second.alive || !it->second.ref) return false;
+        it->second.alive = false;
+        ex = guardedLocal([&] { router->deleteCluster(it->second.ref); });
+        it->second.ref = nullptr; edited = true; probe("router.deleteCluster");
+        return true;
+    }
+    if (o == "fixRoute" || o == "clearFixedRoute" || o == "hateCrossings") {
+        int k = (int)op["id"].i();
+        auto it = conns.find(k);
+        if (it == conns.end() || !it->second.alive || it->second.hyperedge || !it->second.ref) return false;
+        Cn &c = it->second;
+        if (o == "fixRoute") {
+            // setFixedExistingRoute() needs a route: only for connectors that have been routed
+            if (c.ref->route().size() < 2 || c.fixedRoute) return false;
+            ex = guardedLocal([&] { c.ref->setFixedExistingRoute(); });
+            c.fixedRoute = true; probe("router.fixRoute");
+        } else if (o == "clearFixedRoute") {
+            if (!c.fixedRoute) return false;
+            ex = guardedLocal([&] { c.ref->clearFixedRoute(); });
+            c.fixedRoute = false; probe("router.clearFixedRoute");
+        } else {
+            ex = guardedLocal([&] { c.ref->setHateCrossings(op.boolean("v", true)); });
+            probe("router.hateCrossings");
+        }
+        edited = true;
         return true;
     }
     if (o == "transformPins") {
@@ -561,6 +612,46 @@ static GenRegistrar g10("C10", genC10), g11("C11", genC11);
 // pins, junction ends and nudging scenes also take part in the C15 / C20 worlds
 static void extendForMix(Rng &r, RouterGenCfg &g, bool forC20) {
     if (r.chance(0.3)) { addJunctionOps(g, 0.5); g.styleExtra = g.styleExtra.empty() ? "junctions" : g.styleExtra + "+junctions"; }
+    if (!forC20 && r.chance(0.35)) {
+        // less common API in the memory-safety worlds: clusters (with a cluster-crossing penalty), fixed routes, crossing
+        // aversion, pin transforms.  No geometric oracle is armed in these worlds; C15 watches.
+        auto prev = g.editHook;
+        auto nextCluster = std::make_shared<int>(0);
+        auto liveClusters = std::make_shared<std::set<int>>();
+        if (r.chance(0.6)) g.params[P_clusterCrossing] = r.pick(std::vector<double>{0, 50, 4000});
+        bool clustersOk = g.ortho;      // polyline cluster boundaries must be made of shape vertices (makepath.cpp:385): orthogonal mode only
+        g.editHook = [prev, nextCluster, liveClusters, clustersOk](SceneGen &sg, Json &ops) {
+            Rng &rr = sg.r;
+            if (prev && rr.chance(0.4)) { prev(sg, ops); return; }
+            int what = (int)rr.below(10);
+            if (!clustersOk && what < 6) what = 6 + (int)rr.below(4);
+            auto rectAround = [&]() {
+                std::vector<int> ids; for (auto &kv : sg.shapes) if (kv.second.alive) ids.push_back(kv.first);
+                RectB b{(double)rr.below(300), (double)rr.below(300), (double)(60 + rr.below(200)), (double)(60 + rr.below(200))};
+                if (!ids.empty() && rr.chance(0.7)) { const RectB &s0 = sg.shapes[rr.pick(ids)].box; double m = 5 + rr.below(4) * 5; b = RectB{s0.x - m, s0.y - m, s0.w + 2 * m + rr.below(3) * 40, s0.h + 2 * m + rr.below(3) * 40}; }
+                Json pj = Json::arr(); for (auto &q : rectPoly(b)) pj.push(ptJ(q)); return pj;
+            };
+            std::vector<int> cids; for (auto &kv : sg.conns) if (kv.second.alive && !kv.second.hyper) cids.push_back(kv.first);
+            if (what < 3 || (what < 6 && liveClusters->empty())) {
+                int id = (*nextCluster)++; liveClusters->insert(id);
+                Json o = Json::obj(); o.set("op", "addCluster"); o.set("id", id); o.set("poly", rectAround()); ops.push(o);
+            } else if (what < 5) {
+                int id = *std::next(liveClusters->begin(), (long)rr.below(liveClusters->size()));
+                Json o = Json::obj(); o.set("op", "moveCluster"); o.set("id", id); o.set("poly", rectAround()); ops.push(o);
+            } else if (what < 6) {
+                int id = *std::next(liveClusters->begin(), (long)rr.below(liveClusters->size())); liveClusters->erase(id);
+                Json o = Json::obj(); o.set("op", "deleteCluster"); o.set("id", id); ops.push(o);
+            } else if (!cids.empty()) {
+                int id = rr.pick(cids);
+                Json o = Json::obj(); o.set("op", what < 8 ? "fixRoute" : what < 9 ? "clearFixedRoute" : "hateCrossings"); o.set("id", id);
+                if (what == 9) o.set("v", rr.chance(0.5));
+                ops.push(o);
+            }
+        };
+        g.wMove = std::min(g.wMove, 40);
+        g.costOracles = false;
+        g.styleExtra = g.styleExtra.empty() ? "misc-api" : g.styleExtra + "+misc-api";
+    }
     if (r.chance(0.4)) {
         g.polygons = false; g.gap = std::max(g.gap, 30.0); g.endMargin = std::max(g.endMargin, 2.0);
         bool zero = r.chance(0.1);
